@@ -569,6 +569,8 @@ pub fn value_programs(t: &dyn Table, quick: bool, options_only: bool) -> Vec<(St
                 })
                 .collect();
             let kname = t.kinds()[k as usize];
+            let pair_combos: Vec<Vec<(usize, u64)>> = crate::util::enum_combos(&dims, 16).into_iter().filter(|c| c.len() <= 4).collect();
+            let pair_combos = if pair_combos.is_empty() { vec![vec![]] } else { pair_combos };
             for (i, b) in wide.iter().copied() {
                 let ordinary = crate::fill::Fill::b(2).raw(i as u8, b);
                 for val in crate::util::value_set(b, ordinary, quick) {
@@ -589,10 +591,18 @@ pub fn value_programs(t: &dyn Table, quick: bool, options_only: bool) -> Vec<(St
                     let w = bi.min(bj).min(63);
                     let m = (1u64 << w) - 1;
                     let x = (crate::fill::Fill::b(2).raw(i as u8, 64) & m) >> 1;
-                    for (name, a, c) in [("equal", x, x), ("next", x, x + 1), ("previous", x + 1, x), ("double", x >> 1, (x >> 1) * 2), ("both zero", 0, 0), ("both one", 1, 1), ("both ones", m, m)] {
-                        let mut ops = pre.clone();
-                        ops.push(Op { k, shape, fill: crate::fill::Fill::b(3).with(i as u8, a).with(j as u8, c) });
-                        progs.push((format!("{}[shape {} args {} and {} {}]", kname, shape, i, j, name), ops));
+                    for (name, a, c) in [("equal", x, x), ("equal small", 23, 23), ("next", x, x + 1), ("previous", x + 1, x), ("double", x >> 1, (x >> 1) * 2), ("both zero", 0, 0), ("both one", 1, 1), ("both ones", m, m)] {
+                        // crossed with the enumerated / boolean arguments of the same entry (two options given the same
+                        // number but different modes is a two-argument coincidence of its own)
+                        for combo in pair_combos.iter() {
+                            let mut f = crate::fill::Fill::b(3).with(i as u8, a & m).with(j as u8, c & m);
+                            for (ei, ev) in combo.iter().take(4) {
+                                f = f.with(*ei as u8, *ev);
+                            }
+                            let mut ops = pre.clone();
+                            ops.push(Op { k, shape, fill: f });
+                            progs.push((format!("{}[shape {} args {} and {} {} enums {:?}]", kname, shape, i, j, name, combo), ops));
+                        }
                     }
                 }
             }
